@@ -15,24 +15,24 @@ Inductive sk :=
   | SkPair (kv : bytes * bytes)
   | SkRow (tr : table * list cell)
   | SkStruct (body name : bytes)
-  | SkEnum (e : enumdecl).
+  | SkEnum (body name : bytes).
 Definition sk_item (s : sk) : item :=
   match s with
   | SkPair kv => ILine (pair_line kv)
   | SkRow tr => ILine (tr_line tr)
   | SkStruct b n => ITd KW_STRUCT b n
-  | SkEnum e => ITd KW_ENUM (fst (enum_td e)) (snd (enum_td e))
+  | SkEnum b n => ITd KW_ENUM b n
   end.
 Definition sk_pairs (l : list sk) : list (bytes * bytes) := flat_map (fun s => match s with SkPair kv => [kv] | _ => [] end) l.
 Definition sk_trs (l : list sk) : list (table * list cell) := flat_map (fun s => match s with SkRow tr => [tr] | _ => [] end) l.
 Definition sk_structs (l : list sk) : list (bytes * bytes) := flat_map (fun s => match s with SkStruct b n => [(b, n)] | _ => [] end) l.
-Definition sk_enums (l : list sk) : list enumdecl := flat_map (fun s => match s with SkEnum e => [e] | _ => [] end) l.
+Definition sk_enums (l : list sk) : list (bytes * bytes) := flat_map (fun s => match s with SkEnum b n => [(b, n)] | _ => [] end) l.
 
 (* the skeleton carries exactly the document *)
 Definition skel_ok (d : doc) (tws : list (table * list bytes)) (l : list sk) : Prop :=
   sk_pairs l = d_pairs d /\ trs_ok d (sk_trs l) /\
   Forall2 (fun tw bn => td_reads (d_enums d) (fst tw) (fst bn) (snd bn)) tws (sk_structs l) /\
-  sk_enums l = d_enums d.
+  Forall2 (fun e bn => etd_reads e (fst bn) (snd bn)) (d_enums d) (sk_enums l).
 
 Lemma sk_filter_struct l : map item_td_text (filter (item_is_td KW_STRUCT) (map sk_item l)) = map btext (sk_structs l).
 Proof.
@@ -40,8 +40,7 @@ Proof.
   change (beq KW_STRUCT KW_STRUCT) with true. cbv iota. cbn [map item_td_text]. unfold sk_structs in IH. now rewrite IH.
 Qed.
 
-Lemma sk_filter_enum l : map item_td_text (filter (item_is_td KW_ENUM) (map sk_item l))
-                         = map (fun bn => td_text KW_ENUM (fst bn) (snd bn)) (map enum_td (sk_enums l)).
+Lemma sk_filter_enum l : map item_td_text (filter (item_is_td KW_ENUM) (map sk_item l)) = map ebtext (sk_enums l).
 Proof.
   induction l as [|s l IH]; [reflexivity|]. destruct s; cbn [map sk_item filter item_is_td sk_enums flat_map app]; try exact IH.
   change (beq KW_ENUM KW_ENUM) with true. cbv iota. cbn [map item_td_text]. unfold sk_enums in IH. now rewrite IH.
@@ -59,11 +58,11 @@ Proof.
   - intros [s [Hs Hin]]. destruct s; try contradiction. destruct Hin as [->|[]]. exact Hs.
   - intros H. exists (SkRow tr). split; [exact H|now left].
 Qed.
-Lemma in_sk_enums l e : In e (sk_enums l) <-> In (SkEnum e) l.
+Lemma in_sk_enums l b n : In (b, n) (sk_enums l) <-> In (SkEnum b n) l.
 Proof.
   unfold sk_enums. rewrite in_flat_map. split.
-  - intros [s [Hs Hin]]. destruct s; try contradiction. destruct Hin as [->|[]]. exact Hs.
-  - intros H. exists (SkEnum e). split; [exact H|now left].
+  - intros [s [Hs Hin]]. destruct s; try contradiction. destruct Hin as [E|[]]. inversion E; subst. exact Hs.
+  - intros H. exists (SkEnum b n). split; [exact H|now left].
 Qed.
 Lemma in_sk_structs l b n : In (b, n) (sk_structs l) <-> In (SkStruct b n) l.
 Proof.
@@ -81,14 +80,14 @@ Qed.
 Lemma skel_good d tws l : doc_ok d = true -> skel_ok d tws l -> Forall item_good (map sk_item l).
 Proof.
   intros Hd [Hp [[Htr _] [Hst Hen]]]. destruct (doc_ok_parts d Hd) as [_ [_ [Hpk [_ [Hes [_ [Ht _]]]]]]].
-  apply Forall_map_in. intros s Hin. destruct s as [[k v]|[t r]|b n|e]; cbn [sk_item].
+  apply Forall_map_in. intros s Hin. destruct s as [[k v]|[t r]|b n|b n]; cbn [sk_item].
   - apply in_sk_pairs in Hin. rewrite Hp in Hin. rewrite forallb_forall in Hpk. specialize (Hpk _ Hin). cbn [fst snd] in Hpk.
     apply andb_true_iff in Hpk as [Hpk _]. apply andb_true_iff in Hpk as [Hpk H3]. apply andb_true_iff in Hpk as [H1 H2].
     now apply pair_good.
   - apply in_sk_trs in Hin. rewrite Forall_forall in Htr. destruct (Htr _ Hin) as [T1 T2]. cbn [fst snd] in *.
     unfold tr_line. cbn [fst snd]. eapply row_good; eauto. rewrite forallb_forall in Ht. auto.
   - apply in_sk_structs in Hin. destruct (Forall2_in_r _ _ _ _ Hst Hin) as [tw [_ [G _]]]. exact G.
-  - apply in_sk_enums in Hin. rewrite Hen in Hin. apply enum_good. rewrite forallb_forall in Hes. auto.
+  - apply in_sk_enums in Hin. destruct (Forall2_in_r _ _ _ _ Hen Hin) as [e [_ [G _]]]. exact G.
 Qed.
 
 (* the line loop over pairs, rows and (blanked) typedefs in any order *)
@@ -106,7 +105,7 @@ Proof.
   intros Hes l. induction l as [|s l IH]; intros st H.
   - exists st. split; [reflexivity|]. split; [reflexivity|]. intros k. unfold rows_for. cbn [sk_trs flat_map filter map].
     destruct (assoc k (st_rows st)); cbn [option_map]; [now rewrite app_nil_r|reflexivity].
-  - inversion H as [|? ? Hs Hrest]; subst. destruct s as [[k v]|[t r]|b n|e]; cbn [map sk_item item_line process_lines].
+  - inversion H as [|? ? Hs Hrest]; subst. destruct s as [[k v]|[t r]|b n|b n]; cbn [map sk_item item_line process_lines].
     + destruct Hs as [H1 [H2 H3]]. cbn [fst snd] in *. rewrite pair_line_roundtrip by auto.
       destruct (IH (mkst (assoc_set k v (st_pairs st)) (st_rows st)) Hrest) as [st' [P1 [P2 P3]]].
       exists st'. split; [exact P1|]. split; [exact P2|]. exact P3.
@@ -132,7 +131,7 @@ Proof.
   assert (Hkeys : map fst sy = tnames d).
   { subst sy. unfold sy_of. rewrite map_map. cbn [fst]. exact Hnames. }
   destruct (mixed_processed es sy Hes l (st_init sy)) as [st' [P1 [P2 P3]]].
-  { apply Forall_forall. intros s Hin. destruct s as [[k v]|[t r]|b n|e]; auto.
+  { apply Forall_forall. intros s Hin. destruct s as [[k v]|[t r]|b n|b n]; auto.
     - apply in_sk_pairs in Hin. rewrite Hp in Hin. rewrite forallb_forall in Hpk. specialize (Hpk _ Hin). cbn [fst snd] in *.
       apply andb_true_iff in Hpk as [Hpk H4]. apply andb_true_iff in Hpk as [Hpk H3]. apply andb_true_iff in Hpk as [H1 H2].
       rewrite Hkeys. apply negb_true_iff in H4. auto.
@@ -154,17 +153,18 @@ Qed.
 (* FILE LEVEL: any skeleton, any decoration *)
 Theorem layout_file_skeleton d tws l Ds : doc_ok d = true -> map fst tws = d_tables d -> tws_ok (d_enums d) tws ->
   skel_ok d tws l -> idec (sy_of (d_enums d) tws) Ds (map sk_item l) -> Ds <> [] ->
-  exists p, sem d = Some p /\ parse (items_text Ds) = Some (with_structs p (map btext (sk_structs l))) /\
-            parse_binary (items_text Ds) = Some (with_structs p (map btext (sk_structs l))).
+  exists p, sem d = Some p /\
+            parse (items_text Ds) = Some (with_texts p (map ebtext (sk_enums l)) (map btext (sk_structs l))) /\
+            parse_binary (items_text Ds) = Some (with_texts p (map ebtext (sk_enums l)) (map btext (sk_structs l))).
 Proof.
-  intros Hd Et Hok Hsk HD Hne. destruct (doc_ok_parts d Hd) as [_ [_ [_ [_ [Hes _]]]]].
+  intros Hd Et Hok Hsk HD Hne.
   pose proof (skel_good d tws l Hd Hsk) as Hg.
   destruct (idec_facts _ _ _ HD) as [F D].
   destruct (skel_line_loop d tws l Hd Et Hsk) as [st' [PL LR]].
   pose proof Hsk as [_ [_ [Hst Hen]]].
-  apply (parse_items_td d tws (sk_structs l) Ds st'); auto.
+  apply (parse_items_td d tws (sk_structs l) (sk_enums l) Ds st'); auto.
   - now apply (idec_good _ _ _ HD).
   - rewrite F. apply sk_filter_struct.
-  - rewrite F, sk_filter_enum, Hen. symmetry. now apply map_render_enums.
+  - rewrite F. apply sk_filter_enum.
   - rewrite <- PL. rewrite !process_lines_app. now rewrite (ldec_same_state _ _ _ D).
 Qed.
